@@ -592,8 +592,17 @@ func famStaleLock(r *Rand) *seqScenario {
 		b.roundOK(0)
 	}
 	b.cmd(seqCmd{Op: "crash", Inst: 0})
-	b.cmd(seqCmd{Op: "lockrollback", V: int64(r.Intn(3))})
-	b.cmd(seqCmd{Op: "clock", V: 50})
+	if r.Chance(35) {
+		// no lock entry at all, and the operator (or the inception-day start-up path) runs creation again: it must
+		// refuse, because object storage holds a log
+		b.cmd(seqCmd{Op: "lockwipe"})
+		b.cmd(seqCmd{Op: "clock", V: 50})
+		b.cmd(seqCmd{Op: "create", Inst: 0})
+		b.cmd(seqCmd{Op: "run", Inst: 0})
+	} else {
+		b.cmd(seqCmd{Op: "lockrollback", V: int64(r.Intn(3))})
+		b.cmd(seqCmd{Op: "clock", V: 50})
+	}
 	b.cmd(seqCmd{Op: "start", Inst: 0})
 	b.cmd(seqCmd{Op: "run", Inst: 0})
 	for k := 0; k < 2; k++ {
@@ -805,7 +814,7 @@ func genScenarios(o *Opts, r *Rand) []*seqScenario {
 		}
 	}
 	if fam("stalelock") {
-		for i := 0; i < 12*mul; i++ {
+		for i := 0; i < 18*mul; i++ {
 			add(famStaleLock(r.Fork()))
 		}
 	}
